@@ -176,6 +176,19 @@ class ChainBuild(Suite):
             dict(classes=[dict(K(0, 'Prep'), name='prepare_task'), K(1, 'CleanTask'), dict(K(2, 'Other', group='g'), name='_task'),
                           dict(K(3, 'Dep', meta_inputs=[{'cls': 0}, {'cls': 1}, {'cls': 2}]), name='dep')],
                  files={}, base={'name': 'm', 'data': {'tasks': ['@M.*']}}, context=None),
+            # per-namespace context entries reach the namespace they name, not namespaces that begin with its text
+            dict(classes=[dict(K(0, 'Abc', params=[P('x'), P('y', default=[5])]), name='abc')],
+                 files={'first.json': {'tasks': ['@M.*'], 'x': 1}, 'second.json': {'tasks': ['@M.*'], 'x': 2, 'y': 7}},
+                 base={'name': 'm', 'data': {'uses': ['first.json as ns', 'second.json as ns2']}},
+                 context={'dict': {'for_namespaces': {'ns': {'y': 99}}}}),
+            dict(classes=[dict(K(0, 'Abc', params=[P('x'), P('y', default=[5])]), name='abc')],
+                 files={'inner.json': {'tasks': ['@M.*'], 'x': 2, 'y': 7}, 'first.json': {'tasks': ['@M.*'], 'x': 1, 'uses': 'inner.json as deep'}},
+                 base={'name': 'm', 'data': {'uses': ['first.json as ns']}},
+                 context={'dict': {'for_namespaces': {'ns': {'y': 99}, 'n': {'y': 98}}}}),
+            # two parameters whose config keys sort the other way round than their names
+            dict(classes=[dict(K(0, 'Abc', params=[P('alpha', cfg='z_alpha'), P('beta'), P('gamma', cfg='a_gamma')]), name='abc'),
+                          dict(K(1, 'Dep', meta_inputs=[{'cls': 0}]), name='dep')],
+                 files={}, base={'name': 'm', 'data': {'tasks': ['@M.*'], 'z_alpha': 1, 'beta': 2, 'a_gamma': 3}}, context=None),
             # an import string names exactly one class, also when another class of the module has that name as a prefix
             dict(classes=[K(0, 'Ab'), K(1, 'A'), K(2, 'Abc')], files={}, base={'name': 'm', 'data': {'tasks': ['@M.A']}}, context=None),
             dict(classes=[K(0, 'Ab'), K(1, 'A'), K(2, 'Abc')], files={},
